@@ -150,7 +150,7 @@ def cases(tier):
         if k not in seen:
             seen.add(k)
             uniq.append(c)
-    for kind in ("integrate", "integrate-const-integrand", "approximate", "markov", "factory", "factory-bound-first"):
+    for kind in ("integrate", "integrate-const-integrand", "integrate-delta2", "approximate", "markov", "markov-swap", "factory", "factory-bound-first"):
         for assign in itertools.product(NAMES, repeat=3):
             uniq.append(["X", kind, list(assign)])
     return uniq
@@ -283,6 +283,21 @@ def _x_build(kind, names, seed):
         with funsor.interpretations.lazy:
             t = Integrate(m, f, frozenset({Variable(p, Bint[SZ])}))
         return t
+    if kind == "integrate-delta2":
+        # the measure is a point mass over TWO names (p, u); only p is integrated, so u stays a free input of the result
+        # whatever the integrand mentions (v may coincide with u or with p)
+        from funsor.delta import Delta
+        from funsor.terms import Number
+
+        if p == u:
+            raise ValueError("ill-typed")
+        pt_p = Tensor(np.array(1), OrderedDict(), SZ)
+        pt_u = Tensor(np.array(0), OrderedDict(), SZ)
+        m = Delta(((p, (pt_p, Tensor(np.array(0.3)))), (u, (pt_u, Number(0.2)))))
+        f = A(tuple(dict.fromkeys((p, v))), 101)
+        with funsor.interpretations.lazy:
+            t = Integrate(m, f, frozenset({Variable(p, Bint[SZ])}))
+        return t
     if kind == "approximate":
         dims_m = tuple(dict.fromkeys((p, u)))
         dims_g = tuple(dict.fromkeys((p, v)))
@@ -300,6 +315,18 @@ def _x_build(kind, names, seed):
         trans = Tensor(lang.generic_fill(95, (SZ,) * len(dims), seed), OrderedDict((n, Bint[SZ]) for n in dims))
         with funsor.interpretations.lazy:
             t = MarkovProduct(ops.add, ops.mul, trans, Variable(p, Bint[SZ]), {"x_prev": "x_curr"})
+        return t
+    if kind == "markov-swap":
+        from funsor.sum_product import MarkovProduct
+
+        # a lazily built product whose visible state names are renamed simultaneously (swap / chain) in one call
+        dims = tuple(dict.fromkeys((p, u))) + ("x_prev", "x_curr")
+        if len(set(dims)) != len(dims):
+            raise ValueError("ill-typed")
+        trans = Tensor(lang.generic_fill(102, (SZ,) * len(dims), seed), OrderedDict((n, Bint[SZ]) for n in dims))
+        with funsor.interpretations.lazy:
+            t = MarkovProduct(ops.add, ops.mul, trans, Variable(p, Bint[SZ]), {"x_prev": "x_curr"})
+            t = t(x_prev="x_curr", x_curr="x_prev") if v == u else t(x_prev="x_curr", x_curr=v if v not in (p, u) else "x_next")
         return t
     if kind == "factory":
         from funsor.factory import Bound, Fresh, Has, make_funsor
@@ -368,6 +395,10 @@ def check_X(kind, names, seed):
         rows2 = _x_table(r2, seed)
     except (observe.Decline, Exception) as ex:
         return core.decline(key, "eval:" + type(ex).__name__)
+    if kind == "integrate-delta2" and set(r1.inputs) != ({u, v} - {p}):
+        return core.violation(key, "X:" + kind, "inputs %s, expected %s (the un-integrated name of the point mass stays free)" % (sorted(r1.inputs), sorted({u, v} - {p})), ["X", kind, list(names)], {"kind": kind, "what": "inputs-absolute"})
+    if kind == "markov-swap" and len(r1.inputs) != len({u} - {p}) + 2:
+        return core.violation(key, "X:" + kind, "inputs %s: a simultaneous renaming of the two state names must keep two state inputs" % sorted(r1.inputs), ["X", kind, list(names)], {"kind": kind, "what": "inputs-absolute"})
     if set(r1.inputs) != set(r2.inputs):
         return core.violation(key, "X:" + kind, "inputs differ after renaming the binder apart: %s vs %s" % (list(r1.inputs), list(r2.inputs)), ["X", kind, list(names)], {"kind": kind, "what": "inputs"})
     d1, d2 = dict(rows1), dict(rows2)
